@@ -373,8 +373,14 @@ def mix_inputs(tier, seed):
         for t in itertools.product(["=", "\n", "&lt;", "&", "a"], repeat=n):
             s = "".join(t)
             out.append(s)
+    # with comments (which may span lines and hide '=' and newlines)
+    topc = 5 if tier == "quick" else 7
+    for n in range(0, topc + 1):
+        for t in itertools.product(["=", "\n", "&lt;", "a", "<!--", "-->", "=="], repeat=n):
+            out.append("".join(t))
     ents = ["&amp;", "&lt;", "&#65;", "&#x41;", "&#X3c;", "&#0061;", "&#61;", "&#x3D;", "&#10;", "&", "&#", "&#x", "&amp", "&;", "&#;", "&bogus;", "&#1114112;", "&=", "&#=;",
-            "&amp=;", "#", ";", "x;", "#61;"]
+            "&amp=;", "#", ";", "x;", "#61;",
+            "<!--", "-->", "<!--x-->", "<!--\n-->", "<!--==-->", "<!--\n==h==\n-->", "<", ">", "!", "--", "<!", "<!---->", "<!--&amp;-->"]
     other = ["a", "b", " ", "é", "中", "\U0001F600", "x", "0"]
     n_rand = 20000 if tier == "quick" else 400000
     for _ in range(n_rand):
@@ -400,8 +406,9 @@ def mix_inputs(tier, seed):
     seen = set()
     uniq = []
     for s in out:
-        # no line may begin with a list marker
-        if any(ln[:1] in ("#", ";") for ln in s.split("\n")):
+        # outside the sub-language: a line beginning (outside a comment) with a list marker or '-', a '<' that could start a tag
+        plain = re.sub(r"<!--.*?-->", "C", s, flags=re.S)
+        if any(ln[:1] in ("#", ";", "-") for ln in plain.split("\n")) or re.search(r"<[^!\-><&#;=\n]", s):
             continue
         if s not in seen:
             seen.add(s)
@@ -500,7 +507,8 @@ def run_mixed(c, tier, seed, props=("roundtrip", "canon", "pyc")):
             continue
         lines = ["%d %d %d %s" % (flag, ms, md, " ".join(str(ord(ch)) for ch in s)) for s in items]
         want[which] = vlib.model_run("mixfrag", lines)
-    dist = {"inputs": len(items), "with_heading": 0, "with_entity": 0, "entity_inside_heading": 0}
+    dist = {"inputs": len(items), "with_heading": 0, "with_entity": 0, "entity_inside_heading": 0, "with_comment": 0, "comment_inside_heading": 0,
+            "comment_spanning_lines": 0}
     reported = 0
     for i, s in enumerate(items):
         row = real[i]
@@ -520,6 +528,22 @@ def run_mixed(c, tier, seed, props=("roundtrip", "canon", "pyc")):
             elif t == "A" and depth > 0:
                 dist["entity_inside_heading"] += 1
                 break
+        dist["with_comment"] += "C" in m
+        depth = 0
+        for t in m:
+            if t[0] == "S":
+                depth += 1
+            elif t == "E":
+                depth -= 1
+            elif t == "C" and depth > 0:
+                dist["comment_inside_heading"] += 1
+                break
+        k = 0
+        while k < len(m):
+            if m[k] == "C" and k + 1 < len(m) and m[k + 1][0] == "T" and "10" in m[k + 1][1:].split("."):
+                dist["comment_spanning_lines"] += 1
+                break
+            k += 1
         for which in want:
             got = row[which]
             if got == want[which][i] or reported >= 5:
